@@ -16,4 +16,8 @@ VARIANTS = [
     V("reversed-call", "        for t in self.transforms[::-1]:\n            _intermediate = t.inv(_intermediate)", "        for t in reversed(self.transforms):\n            _intermediate = t.inv(_intermediate)", expect="silent"),
     V("denorm-reordered", "lambda _params, _offset, _scale: _params * _scale + _offset, params, self.offset, self.scale", "lambda _params, _offset, _scale: _offset + _scale * _params, params, self.offset, self.scale", expect="silent"),
     V("scale-half-mult", "scale = jax.tree_util.tree_map(lambda _min, _max: (_max - _min) / 2, min_params, max_params)", "scale = jax.tree_util.tree_map(lambda _min, _max: 0.5 * _max - 0.5 * _min, min_params, max_params)", expect="silent"),
+    dict(id="C17-extend-template-flat", pid="C17", file="rex/jax_utils.py", old="    tree_extended = jax.tree_util.tree_unflatten(tree_template_treedef, tree_flat)", new="    tree_extended = jax.tree_util.tree_unflatten(tree_template_treedef, tree_template_flat)", expect="fire", rule="C17.pairs"),
+    dict(id="C17-filter-mask-inverted", pid="C17", file="rex/base.py", old="        mask = jax.tree_util.tree_map(lambda ex_x: ex_x is not None, opt_params)", new="        mask = jax.tree_util.tree_map(lambda ex_x: ex_x is None, opt_params)", expect="fire", rule="C17.pairs"),
+    dict(id="C17-filter-base-structure", pid="C17", file="rex/base.py", old="        _, mask_filt_treedef = jax.tree_util.tree_flatten(self.mask)", new="        _, mask_filt_treedef = jax.tree_util.tree_flatten(self.base_params)", expect="fire", rule="C17.pairs"),
+    dict(id="C17-filter-inline", pid="C17", file="rex/base.py", old="        filtered_ex = eqx.filter(params_extended, mask_ex)\n        filtered_ex_flat, _ = jax.tree_util.tree_flatten(filtered_ex)", new="        filtered_ex_flat = jax.tree_util.tree_flatten(eqx.filter(params_extended, mask_ex))[0]", expect="silent"),
 ]
